@@ -14,7 +14,10 @@ INV = {
     'C07': ['Inv_C07_CreateJustified', 'Inv_C07_AtMostOnePerTemplateEpoch', 'Inv_C07_RevisionsUnique', 'Inv_C07_RevisionIncreasing', 'Inv_C07_NoReuse'],
     'C08': ['Inv_C08_ArchiveOnlyPaused', 'Inv_C08_NewestNeverArchived', 'Inv_C08_ArchiveCondition', 'Inv_C08_PruneOldestOnly', 'Inv_C08_SharedObjectNotDeleted'],
     'C09': ['Inv_C09_NoWritesWhilePaused', 'Inv_C09_StillReports', 'Inv_C09_DeploymentPausedNoRevisionChange', 'Inv_C09_ReleaseExactlyMarked', 'Inv_C09_Propagation'],
+    'C10': ['Inv_C10_Quiescent', 'Inv_C10_SameOutcome', 'Inv_C10_DigestMatchesStore', 'Inv_C19_NoPanic'],
     'C11': ['Inv_C11_PhaseAllOrNothing', 'Inv_C11_Scope', 'Inv_C11_Reported', 'Inv_C11_NoWriteIfViolating', 'Inv_C11_ViolationReported'],
+    'C14': ['Inv_C14_SameAsInline'],
+    'C15': ['Inv_C15_SameAsLocal', 'Inv_C15_PhaseObjectFaithful', 'Inv_C15_PhaseObjectLifetime', 'Inv_C15_PausePropagation'],
     'C19': ['Inv_C19_NoPanic'],
 }
 
@@ -25,7 +28,8 @@ def property_of_invariant(name):
 
 
 def key_kind(k):
-    return k.split('/')[0]
+    kd = k.split('/')[0]
+    return 'Object' if kd in ('ConfigMap', 'Widget', 'ClusterThing', 'Secret') else kd
 
 
 def scenario_family(name):
@@ -90,10 +94,15 @@ def g_dep_archive(e):
     return e['actor'] in ('od', 'cod') and ((e['ev'] == 'Update' and e['args']['body']['cr']['lifecycle'] == 'Archived') or e['ev'] == 'Delete')
 
 
-GUARDS = {'C07': g_dep_create, 'C08': g_dep_archive, 'C01': g_c01, 'C02': g_c02, 'C03': g_probefail, 'C04': g_teardown_write, 'C05': g_teardown_write, 'C06': g_status,
+GUARDS = {'C15': lambda e: e['ev'] in ('Create', 'Delete', 'MergePatch') and e['key'].startswith('ObjectSetPhase/') and e['actor'] == 'os' or (e['ev'] == 'Quiesced' and e['args'].get('diff') == 'c15'),
+          'C14': lambda e: (e['ev'] == 'Quiesced' and e['args'].get('diff') == 'c14') or (e['ev'] == 'Get' and e['key'].startswith('ObjectSlice/')),
+          'C10': lambda e: e['ev'] == 'Quiesced' and e['args'].get('hasRef') and e['args'].get('fired', 0) > 0, 'C07': g_dep_create, 'C08': g_dep_archive, 'C01': g_c01, 'C02': g_c02, 'C03': g_probefail, 'C04': g_teardown_write, 'C05': g_teardown_write, 'C06': g_status,
           'C09': g_paused, 'C11': g_preflight}
 
 RULES = {
+    'C15': 'non-trivial: the ObjectSet controller created/patched/deleted an ObjectSetPhase object, or a delegated variant of the staged scenario was compared stage by stage with the in-process run; distinct by event sequence',
+    'C14': 'non-trivial: an ObjectSlice was loaded, or a sliced variant of the staged scenario was compared stage by stage with the inline run; distinct by event sequence',
+    'C10': 'one case = one staged scenario run with one (or two) disturbances (API fault before/after effect, crash, drift) injected at a given API-call index; non-trivial if the disturbance actually fired; distinct by event sequence',
     'C07': 'non-trivial: the deployment controller issued an ObjectSet create; distinct by event sequence',
     'C08': 'non-trivial: the deployment controller archived or pruned a revision; distinct by event sequence',
     'C01': 'a scenario (one Reset..next Reset slice of a trace of the real controllers) is non-trivial if a pass read an existing object its owner does not control (the adoption ladder was evaluated); distinct by the sequence of (actor,event,key,result)',
@@ -248,6 +257,30 @@ CHECKS = {
         ('pause-atomic', ROLLOUT + ',' + HANDOVER + ',collision', 'pause', 'atomic', 120, 2000, 80),
         ('pause-api', ROLLOUT + ',' + HANDOVER + ',collision', 'pause', 'api', 120, 2000, 150),
         ('deploy-pause', DEPLOY, 'deploy-pause', 'atomic', 80, 1500, 160)])),
+    'C10': dict(level='fault_enumeration', invariants=INV['C10'], assumptions=ASSUME + [
+        'fair schedule after the last disturbance = round-robin over all PKO objects, workload controller makes Widgets Ready',
+        'drift domain: content edits, deletion, cache-label removal, revision-annotation removal of managed objects (owner edits are takeovers, see C01)'],
+        jobs=lambda tier, seed: [
+            dict(name='fault-sweep', shards=8 if tier == 'quick' else 14,
+                 driver=['fault-sweep', '-n', '60' if tier == 'quick' else '0', '-seed', str(seed)]),
+            dict(name='fault-pairs', shards=4 if tier == 'quick' else 14,
+                 driver=['fault-sweep', '-mode', 'pairs', '-n', '20' if tier == 'quick' else '400', '-seed', str(seed)])]),
+    'C14': dict(level='model_checking', assumptions=ASSUME,
+                invariants=INV['C14'] + INV['C03'] + INV['C04'] + INV['C05'] + INV['C06'] + ['Inv_C09_NoWritesWhilePaused'],
+                jobs=lambda tier, seed: [
+                    dict(name='differential-c14', shards=5 if tier == 'quick' else 14, driver=['differential', '-profile', 'c14']),
+                    rnd('sliced-atomic', 'sliced', 'all', 'atomic', 80 if tier == 'quick' else 2000, 90, seed, 4 if tier == 'quick' else 14),
+                    rnd('sliced-api', 'sliced', 'all', 'api', 80 if tier == 'quick' else 2000, 160, seed, 4 if tier == 'quick' else 14)]),
+    'C15': dict(level='model_checking', assumptions=ASSUME,
+                invariants=INV['C15'] + INV['C01'] + INV['C02'] + INV['C03'] + INV['C04'] + INV['C05'] + INV['C06'] + ['Inv_C09_NoWritesWhilePaused'],
+                jobs=lambda tier, seed: [
+                    dict(name='differential-c15', shards=5 if tier == 'quick' else 14, driver=['differential', '-profile', 'c15']),
+                    rnd('delegated-atomic', 'delegated-mixed,delegated-handover,local-to-delegated,rolledout-delegated,paused-start', 'all', 'atomic',
+                        80 if tier == 'quick' else 2000, 90, seed, 4 if tier == 'quick' else 14),
+                    rnd('delegated-api', 'delegated-mixed,delegated-handover,local-to-delegated,rolledout-delegated,paused-start', 'all', 'api',
+                        80 if tier == 'quick' else 2000, 160, seed, 4 if tier == 'quick' else 14),
+                    dict(name='adopt-table-annotation', shards=4 if tier == 'quick' else 14,
+                         driver=['adopt-table', '-n', '1500' if tier == 'quick' else '20000', '-seed', str(seed + 11)], invariants=INV['C01'])]),
     'C11': dict(level='model_checking', invariants=INV['C11'], assumptions=ASSUME, jobs=lambda tier, seed: [
         dict(name='preflight-table', shards=8 if tier == 'quick' else 14,
              driver=['preflight-table', '-n', '1500' if tier == 'quick' else '0', '-seed', str(seed)])]),
